@@ -1,9 +1,12 @@
 (* ReBoundary.v -- C11, the character-boundary clause: on a valid UTF-8 pattern string and a valid
    UTF-8 line every offset regexec reports is the byte offset of a character boundary of the line
-   (or -1/-1).  The literal atoms the parser builds either consist of whole characters of the pattern
-   or start with a continuation byte (after the brace skip "++*pat" of the repetition suffix) and
-   then never match at a boundary; every other atom advances by the length of the character at a
-   boundary or not at all. *)
+   (or -1/-1).  Every string the parser looks at is some continuation bytes followed by whole
+   characters (Suf, closed under any skipn, so no positional reasoning about the parser is needed);
+   hence a literal atom either consists of whole characters of the pattern or starts with a
+   continuation byte and then never matches at a boundary.  (Since the repetition suffix requires
+   the closing brace -- repo fixes 66f245a / 3139e7f -- the parser no longer steps into the middle
+   of a character of a valid pattern; the proof does not depend on that.)  Every other atom advances
+   by the length of the character at a boundary or not at all. *)
 From Coq Require Import List Arith Lia Bool ZArith NArith ZifyN ZifyBool ZifyNat.
 From NV Require Import Bytes GenConsts UcDefs UcSpec UcProps UcSegProps ReSyntax ReParse ReEmit ReVM ReSem ReProps ReProps2 ReProps3 ReProps4 ReProps5 ReProps6 ReProps7 ReProps8.
 Import ListNotations.
@@ -241,15 +244,15 @@ Proof.
        let s0 := tl b in
        let '(mn0, s1) := digits s0 0%Z in
        let '(mx0, s2) := if (hd0 s1 =? 44)%N then let s2 := tl s1 in digits s2 (if (hd0 s2 =? 125)%N then (-1)%Z else 0%Z) else (mn0, s1) in
-       do s3 <- adv SBrace s2 1;
-       if (NREPS <? mn0)%Z || (NREPS <? mx0)%Z || ((0 <=? mx0)%Z && (mx0 <? mn0)%Z) then Ok (None, s3) else Ok (Some (mn0, mx0), s3)
+       if negb (hd0 s2 =? 125)%N || (NREPS <? mn0)%Z || (NREPS <? mx0)%Z || ((0 <=? mx0)%Z && (mx0 <? mn0)%Z) then Ok (None, s2) else Ok (Some (mn0, mx0), tl s2)
      else Ok (Some (mn, mx), b)) = Ok (r, s') -> Suf s').
   { intros mn mx b Hb. destruct (hd0 b =? 123)%N; [|intro H; inversion H; subst; exact Hb].
     cbv zeta. pose proof (Suf_digits (tl b) 0%Z (Suf_tl _ Hb)) as H1. destruct (digits (tl b) 0) as [mn1 s1]. cbn [snd] in H1.
-    assert (H2 : forall mx1 s2, Suf s2 -> (do s3 <- adv SBrace s2 1;
-              if (NREPS <? mn1)%Z || (NREPS <? mx1)%Z || ((0 <=? mx1)%Z && (mx1 <? mn1)%Z) then Ok (None, s3) else Ok (Some (mn1, mx1), s3)) = Ok (r, s') -> Suf s').
-    { intros mx1 s2 Hs2. unfold adv. destruct (Nat.leb 1 (length s2)); cbn [bind]; [|discriminate].
-      destruct ((NREPS <? mn1)%Z || (NREPS <? mx1)%Z || ((0 <=? mx1)%Z && (mx1 <? mn1)%Z)); intro H; inversion H; subst; exact (Suf_skipn s2 1 Hs2). }
+    assert (H2 : forall mx1 s2, Suf s2 ->
+              (if negb (hd0 s2 =? 125)%N || (NREPS <? mn1)%Z || (NREPS <? mx1)%Z || ((0 <=? mx1)%Z && (mx1 <? mn1)%Z) then Ok (None, s2) else Ok (Some (mn1, mx1), tl s2)) = Ok (r, s') -> Suf s').
+    { intros mx1 s2 Hs2.
+      destruct (negb (hd0 s2 =? 125)%N || (NREPS <? mn1)%Z || (NREPS <? mx1)%Z || ((0 <=? mx1)%Z && (mx1 <? mn1)%Z)); intro H; inversion H; subst;
+        [exact Hs2 | exact (Suf_tl s2 Hs2)]. }
     destruct (hd0 s1 =? 44)%N.
     - pose proof (Suf_digits (tl s1) (if (hd0 (tl s1) =? 125)%N then (-1)%Z else 0%Z) (Suf_tl _ H1)) as H3.
       destruct (digits (tl s1) (if (hd0 (tl s1) =? 125)%N then (-1)%Z else 0%Z)) as [mx1 s2]. cbn [snd] in H3. apply H2, H3.
@@ -366,7 +369,8 @@ Qed.
 Lemma regcomp_atoms pat p pcs : Forall scalar pcs -> pat = chars pcs -> regcomp pat = Ok (Some p) -> re_ok (tr (tree p)).
 Proof.
   intros Hs -> H. unfold regcomp, parse_pat in H.
-  destruct (rnode_parse (parse_fuel (chars pcs)) (chars pcs)) as [[[t|] s']| |] eqn:E; cbn [bind fst] in H; try discriminate.
+  destruct (rnode_parse (parse_fuel (chars pcs)) (chars pcs)) as [[[t|] s']| |] eqn:E; cbn [bind fst snd] in H; try discriminate.
+  destruct (parse_bad (chars pcs) || negb match s' with [] => true | _ :: _ => false end); [discriminate|].
   destruct ((0 <=? NINST)%Z && (NINST <=? count t + 3)%Z); [discriminate|].
   inversion H; subst; clear H. cbn [tree]. apply tr_ok, grpnum_atoms.
   destruct (rnode_parse_pok _ _ _ _ (Suf_chars _ Hs) E) as [_ A]. exact A.
